@@ -294,6 +294,11 @@ func scribble(c *CfgCore) {
 			m[poisonS] = poisonI
 		}
 	}
+	for k := range c.KP {
+		if k.Z != nil {
+			k.Z.ID = poisonI
+		}
+	}
 	for k, l := range c.MM {
 		for i := range l {
 			l[i] = poisonS
